@@ -387,7 +387,10 @@ func runC11(seed int64, n int, out, backendSpec string) *RunReport {
 		}
 		hr := &HistResult{Steps: steps, Backend: be}
 		cs.Add(hr.caseTerm(), be == "bbolt" && len(steps) < 40)
+		// byte level: what the store really holds under each document key, against the msgpack/gob model
+		mpExisting(env, be, "c", order, inserted, cs, f, &evals, kinds)
 		env.destroy()
+		mpBoundary(be, cs, f, &evals, kinds)
 	}
 	plainOpenScenario(f, &evals)
 	files := cs.Write(out, "c11")
